@@ -198,6 +198,9 @@ def dense_to_brle(dense_data, dtype=np.int64):
     if len(dense_data.shape) != 1:
         raise ValueError("`dense_data` must be rank 1.")
     n = len(dense_data)
+    if n == 0:
+        # no data is no runs
+        return np.array([], dtype=dtype)
     starts = np.r_[0, np.flatnonzero(dense_data[1:] != dense_data[:-1]) + 1]
     lengths = np.diff(np.r_[starts, n])
     lengths = split_long_brle_lengths(lengths, dtype=dtype)
@@ -255,6 +258,9 @@ def rle_to_dense(rle_data, dtype=np.int64):
 def dense_to_rle(dense_data, dtype=np.int64):
     """Get run length encoding of the provided dense data."""
     n = len(dense_data)
+    if n == 0:
+        # no data is no runs
+        return np.array([], dtype=dtype)
     starts = np.r_[0, np.flatnonzero(dense_data[1:] != dense_data[:-1]) + 1]
     lengths = np.diff(np.r_[starts, n])
     values = dense_data[starts]
